@@ -231,6 +231,12 @@ func (ls *loaderStub) load(ctx context.Context, key K) (theine.Loaded[V], error)
 	switch outcome {
 	case "err":
 		simrt.Fault("loader.error")
+		if id%2 == 0 {
+			// the common shape `return Loaded{Value: v, Cost: c}, err`: the value that comes with an
+			// error must never be stored or shown to anybody
+			simrt.Fault("loader.error-with-value")
+			return theine.Loaded[V]{Value: rec.Val, Cost: cost, TTL: time.Duration(ttl)}, &loaderError{rec.Token}
+		}
 		return theine.Loaded[V]{}, &loaderError{rec.Token}
 	case "panic":
 		simrt.Fault("loader.panic")
